@@ -1,7 +1,7 @@
 (* The default batch verifier of the trait: its verdict is the conjunction of the verdicts of the scheme's own check on
    the groups of the query set, taken in order on the shared transcript; an error or abort of any group is the result. *)
 From Coq Require Import List Arith NArith Bool Lia.
-From PC Require Import Base.Field Base.Result Base.Poly Schemes.DefaultBatch.
+From PC Require Import Base.Field Base.Result Base.Poly Base.OrdMap Schemes.LC Schemes.DefaultBatch.
 Import ListNotations.
 
 Section DefaultBatchFacts.
@@ -51,3 +51,55 @@ Section DefaultBatchFacts.
     intros L. unfold default_batch_check. destruct (Nat.eqb_spec (length proofs) (length (groups qs))); [contradiction|reflexivity].
   Qed.
 End DefaultBatchFacts.
+
+Section DefaultLCFacts.
+  Context {FO : FieldOps} {FL : FieldLaws FO}.
+  Variables (Comm Proof St : Type).
+  Variable check : list Comm -> point -> list F -> Proof -> St -> res (bool * St).
+
+  (* the claim of one equation query holds against the transmitted polynomial evaluations *)
+  Definition claim_holds (lcm : list (N * lc)) (pev eqn_ev : list (pkey * F)) (q : query) : Prop :=
+    match OrdMap.lookup N.compare (fst q) lcm with
+    | None => True
+    | Some terms => exists claimed, lookup_pk (fst q, snd (snd q)) eqn_ev = Some claimed /\
+                                    lc_rhs pev (snd (snd q)) terms f0 = Ok claimed
+    end.
+
+  Lemma eqn_loop_none_all lcm pev eqn_ev : forall qs,
+    eqn_loop lcm pev eqn_ev qs = None -> Forall (claim_holds lcm pev eqn_ev) qs.
+  Proof.
+    induction qs as [|[lab [pl pt]] qs IH]; intros H; [constructor|].
+    cbn [eqn_loop] in H. constructor.
+    - unfold claim_holds. cbn [fst snd].
+      destruct (OrdMap.lookup N.compare lab lcm) as [terms|]; [|exact I].
+      destruct (lookup_pk (lab, pt) eqn_ev) as [claimed|]; [|discriminate].
+      destruct (lc_rhs pev pt terms f0) as [actual| |]; try discriminate.
+      destruct (feqb claimed actual) eqn:E; [|discriminate].
+      apply FL_eqb in E. subst actual. exists claimed. split; reflexivity.
+    - apply IH. destruct (OrdMap.lookup N.compare lab lcm) as [terms|]; [|exact H].
+      destruct (lookup_pk (lab, pt) eqn_ev) as [claimed|]; [|discriminate].
+      destruct (lc_rhs pev pt terms f0) as [actual| |]; try discriminate.
+      destruct (feqb claimed actual); [exact H|discriminate].
+  Qed.
+
+  (* the default check_combinations accepts only if the claim of EVERY equation query (every equation at every one of its
+     points) equals the combination of the transmitted evaluations, and the batch check of those evaluations accepts *)
+  Theorem default_check_combinations_true lcs cs eqn_qs eqn_ev proofs evs st st' :
+    default_check_combinations Comm Proof St check lcs cs eqn_qs eqn_ev proofs (Some evs) st = Ok (true, st') ->
+    let lcm := lcs_map lcs in
+    let pqs := lc_qs_to_poly_qs lcm eqn_qs in
+    let pev := combine (poly_point_keys pqs) evs in
+    Forall (claim_holds lcm pev eqn_ev) eqn_qs /\
+    default_batch_check Comm Proof St check cs pqs (map (fun kv => (fst (fst kv), snd (fst kv), snd kv)) pev) proofs st = Ok (true, st').
+  Proof.
+    intros H. cbv zeta. unfold default_check_combinations in H.
+    destruct (eqn_loop _ _ eqn_ev eqn_qs) as [[[|]| |]|] eqn:E; try discriminate.
+    - exfalso. revert E. generalize (combine (poly_point_keys (lc_qs_to_poly_qs (lcs_map lcs) eqn_qs)) evs). intros pev.
+      induction eqn_qs as [|[lab [pl pt]] qs IH]; cbn [eqn_loop]; [discriminate|].
+      destruct (OrdMap.lookup N.compare lab (lcs_map lcs)) as [terms|]; [|exact IH].
+      destruct (lookup_pk (lab, pt) eqn_ev) as [claimed|]; [|discriminate].
+      destruct (lc_rhs pev pt terms f0) as [actual| |]; try discriminate.
+      destruct (feqb claimed actual); [exact IH|discriminate].
+    - split; [apply eqn_loop_none_all; exact E|exact H].
+  Qed.
+End DefaultLCFacts.
